@@ -263,8 +263,12 @@ class Publish:
         # we use the servermap to populate the initial goal: this way we will
         # try to update each existing share in place. Since we're
         # updating, we ignore damaged and missing shares -- callers must
-        # do a repair to repair and recreate these.
-        self.goal = set(self._servermap.get_known_shares())
+        # do a repair to repair and recreate these. Shares of any other
+        # version are left alone too: writing only the changed segments
+        # into them would produce a corrupt share of the new version.
+        self.goal = set([key for (key, (verinfo, timestamp))
+                         in self._servermap.get_known_shares().items()
+                         if verinfo == version])
 
         # shnum -> set of IMutableSlotWriter
         self.writers = DictOfSets()
